@@ -1,7 +1,7 @@
 import XixiKV.Proofs.EnginePolicy
 import XixiKV.Properties.C01
 import XixiKV.Properties.C05
-import XixiKV.Proofs.TransEq
+import XixiKV.Proofs.TransEqSize
 /-!
 # C17 (second half) — the data-file size limit and the estimate it rests on
 
